@@ -186,7 +186,7 @@ Example C03_renegotiation_reauth_nonvacuous :
                allowed_of a = false) /\
   (* re-authentication accepted: service resumes, so the conclusion does depend on the hypothesis *)
   no_service 0 (snd (run v st1 ([EvFrame 0 (FrLcp (FCack true)); EvFrame 0 FrChapResp; EvAAA 2 AAcc] ++ probe))) = false /\
-  (* today's code: accepted, renegotiated before IPCP converged: the probes are served without any new accept *)
+  (* the code before 8b06a36: accepted, renegotiated before IPCP converged: the probes are served without any new accept *)
   no_service 0 (snd (run (mkV false false) (fst (run (mkV false false) (init 2) (ev_pending ++ [EvAAA 1 AAcc; e]))) probe)) = false.
 Proof.
   intros v evs1 e st1 probe. repeat split; try (timeout 20 (vm_compute; reflexivity)).
@@ -229,7 +229,7 @@ Theorem C03_gate_bounded_sweep : sweep2 (mkV true false) = true /\ sweep2 (mkV t
 Proof. exact sweep2_repaired. Qed.
 Print Assumptions C03_gate_bounded_sweep.
 
-(* Today's code (defective variant) violates the gate: *)
+(* The code before the fixes (vrep = false; fixed in 8b06a36 and 99f4417) violated the gate: *)
 Definition ev_lcp_up := [EvOpen 0; EvFrame 0 (FrLcp (FCreq QGood)); EvFrame 0 (FrLcp (FCack true))].
 (* (1) an accept for a request made before an LCP renegotiation is honoured after it *)
 Definition w_stale := ev_lcp_up ++ [EvFrame 0 FrChapResp; EvFrame 0 (FrLcp (FCreq QGood)); EvAAA 1 AAcc].
@@ -322,7 +322,7 @@ Theorem C03_ipoe_bounded_sweep : isweep3 = true.
 Proof. exact isweep3_ok. Qed.
 Print Assumptions C03_ipoe_bounded_sweep.
 
-(* today's code: (1) accept, bind, then a second answer "reject": the unapproved, removed session still holds its
+(* the code before 671f51c (rep = false): (1) accept, bind, then a second answer "reject": the unapproved, removed session still holds its
    lease and dataplane session; (2) a second accept makes the next DISCOVER take the pool's last address.
    The repaired variant does neither. *)
 Theorem C03_ipoe_refuted :
